@@ -465,7 +465,8 @@ func emitByteVars(w *bytes.Buffer, prefix string, pi *pkgInfo) {
 }
 
 // string->value tables:
-//   map[byte]string / map[string]bool composite literals (dictionarygen/util.go)
+//
+//	map[byte]string / map[string]bool composite literals (dictionarygen/util.go)
 func emitStringMaps(w *bytes.Buffer, prefix string, pi *pkgInfo) {
 	for _, f := range pi.files {
 		for _, d := range f.Decls {
